@@ -78,8 +78,15 @@ where
     }
 
     /// Like [`Gc::new`], but returns the cached pointer if possible.
+    ///
+    /// A type with a destructor is never served from the cache: the cached allocation cannot own
+    /// the value, so the value would be destructed right here while the returned pointer keeps
+    /// handing out references to it.
     #[inline]
     pub fn alloc<T: Collect<'gc>>(&self, mc: &Mutation<'gc>, t: T) -> Gc<'gc, T> {
+        if mem::needs_drop::<T>() {
+            return Gc::new(mc, t);
+        }
         // SAFETY: we own a `T`.
         if let Some(ptr) = unsafe { self.alloc_zst() } {
             ptr
@@ -89,8 +96,13 @@ where
     }
 
     /// Like [`Gc::new_static`], but returns the cached pointer if possible.
+    ///
+    /// As with [`ZstCache::alloc`], a type with a destructor is never served from the cache.
     #[inline]
     pub fn alloc_static<T: 'static>(&self, mc: &Mutation<'gc>, t: T) -> Gc<'gc, T> {
+        if mem::needs_drop::<T>() {
+            return Gc::new_static(mc, t);
+        }
         // SAFETY: we own a `T`.
         if let Some(ptr) = unsafe { self.alloc_zst() } {
             ptr
